@@ -3638,6 +3638,10 @@ class StateEngine(object):
                                      str(min(end + max_concurrency, len(result))),
                         }
 
+                        # (not those of the last state of the Iteration,
+                        # which may have been retried in its own right)
+                        context_state.pop("RetryCount", None)
+                        context_state.pop("RetryTimeout", None)
                         if retry_count:
                             context_state["RetryCount"] = retry_count
                         if retry_timeout:
@@ -3667,7 +3671,12 @@ class StateEngine(object):
             failed Branch: if e.g. its ResultPath cannot be applied after the
             join the retriers must see the attempts already made, otherwise
             MaxAttempts is never reached and the state is retried forever.
+            The retry information that arrives with the event is that of the
+            last state of the Branch (a Task that was retried itself, say),
+            which must not count against this state's Retriers.
             """
+            context_state.pop("RetryCount", None)
+            context_state.pop("RetryTimeout", None)
             if retry_count:
                 context_state["RetryCount"] = retry_count
             if retry_timeout:
